@@ -39,6 +39,9 @@ WEIGHTS = {"fuse": 3, "reshape": 2, "tensordot": 3, "svd_truncated": 2,
            "copy": 1, "phase_flip": 2, "phase_transpose": 2,
            "multiply_diagonal": 4, "phase_global": 4, "align_axes": 2,
            "sync_charges": 2, "squeeze": 2, "expand_dims": 2}
+STALE_WEIGHTS = dict(WEIGHTS, phase_global=8, phase_flip=5, phase_transpose=5,
+                     phase_sync=4, transpose=5, conj=4, dagger=4, neg=3,
+                     to_dense=3, sum=3, fuse=4)
 
 
 def canon(name, res):
@@ -125,11 +128,40 @@ def law_history(ch):
     L = gen.build(spec, lazy=True)
     S = gen.build(spec, lazy=True).phase_sync()
     nsteps = ch.choice(range(2, 9 if tier() == "quick" else 21), "nsteps")
+    run_history(ch, L, S, nsteps, WEIGHTS)
+
+
+def law_stale_table(ch):
+    """histories starting from a pending-sign table that also names valid
+    sectors which are not stored (as left behind by operations that drop
+    blocks): such entries refer to implicit zeros and must have no effect"""
+    spec = ch.draw(gen.array_specs(ferm=True, max_ndim=4, max_size=2,
+                                   allow_empty=False, phases=None), "x0")
+    base = gen.build(spec, lazy=True)
+    valid = gen.spec_valid_sectors(spec["symm"], spec["idxs"], spec["charge"])
+    unstored = [tuple(s) for s in valid if tuple(s) not in base.blocks]
+    if not unstored or not base.blocks:
+        return
+    stale = ch.subset(unstored[:8], "stale", min_size=1)
+    kw = {"symmetry": spec["symm"]} if spec["dyn"] else {}
+    L = must(type(base), indices=base.indices, charge=base.charge,
+             blocks=dict(base.blocks),
+             phases={**base.phases, **{s: -1 for s in stale}},
+             oddpos=spec["oddpos"], what="__init__(phases=)", **kw)
+    S = base.phase_sync()
+    ch.label(f"stale={len(stale)}")
+    ch.label("table-size-equals-block-count"
+             if len(L.phases) == len(L.blocks) else "table-size-differs")
+    nsteps = ch.choice(range(1, 5), "nsteps")
+    run_history(ch, L, S, nsteps, STALE_WEIGHTS, min_done=1, min_hits=0)
+
+
+def run_history(ch, L, S, nsteps, weights, min_done=2, min_hits=1):
     done = []
     hits = 0
     for step in range(nsteps):
         t = f"s{step}"
-        op, args = ops.draw_op(ch, L, t, weights=WEIGHTS)
+        op, args = ops.draw_op(ch, L, t, weights=weights)
         if op is None:
             break
         pending = bool(L.phases) and any(
@@ -185,7 +217,7 @@ def law_history(ch):
     for o in set(done):
         ch.label(f"op={o}")
     ch.count("ops-reading-blocks-with-pending-signs", hits)
-    ch.mark_nontrivial(hits >= 1 and len(done) >= 2)
+    ch.mark_nontrivial(hits >= min_hits and len(done) >= min_done)
 
 
 def law_linalg(ch):
@@ -268,6 +300,8 @@ LAWS = [
     Law("history", law_history, quick=3000, thorough=60000,
         doc="same operation history on a lazy and a synchronised copy; "
             "results equal after every step; sync laws at the end"),
+    Law("stale_table", law_stale_table, quick=800, thorough=12000,
+        doc="histories from a table that also names unstored valid sectors"),
     Law("linalg", law_linalg, quick=1500, thorough=20000,
         doc="eigh / solve / qr / svd / svd_truncated on generated lazy "
             "matrices vs their synchronised copies"),
